@@ -98,6 +98,24 @@ def gen_cases(rng, tier, scale):
         grp = f'ne{k}'
         cases.append(rcase(f'{grp}T', main, data, partials=parts, entry=0, kind='noopT', grp=grp, tags=['noop-insert']))
         cases.append(rcase(f'{grp}U', main, data, partials=parts2, entry=0, kind='noopU', grp=grp, E=E, tags=['noop-insert']))
+    # the same relation on fixed pairs (whatever the seed): the shapes in which the three 'last written' flags decide an
+    # indentation — a block that wrote text and ends with a construct writing nothing, a partial entered in mid-line or
+    # after `~` whose body starts with one, an each whose iterations end with one
+    NOOP = [('{{#if yes}}b{{/if}}|c', '{{#if yes}}b{{#if no}}x{{/if}}{{/if}}|c'),
+            ('{{#if yes}}b\n{{/if}}c\n', '{{#if yes}}b\n{{#if no}}x{{/if}}{{/if}}c\n'),
+            ('{{#each two}}{{this}}{{/each}}.\n', '{{#each two}}{{this}}{{#if no}}, {{/if}}{{/each}}.\n'),
+            ('a{{> leaf}}o\n', 'a{{> leaf}}{{> empty}}o\n'), ('text\nnext\n', '{{> empty}}text\nnext\n'),
+            ('text\nnext\n', '{{#if no}}x{{/if}}text\nnext\n'), ('{{#with o}}w{{/with}};\nq\n', '{{#with o}}w{{e}}{{/with}};\nq\n'),
+            ('items:{{#each two}}\n{{this}}\n{{/each}}end\n', 'items:{{#each two}}\n{{this}}\n{{#if no}}x{{/if}}{{/each}}end\n')]
+    MAINS = ['<\n  {{> mid}}\n>', 'a\n    {{> outer}}\nz', 'abc\n{{~#if yes}}\n  {{> mid}}\n{{/if}}', '\t{{> mid}}', '{{> outer}}']
+    kn = 0
+    for tb, ub in NOOP:
+        for main in MAINS:
+            data = {'v': 'V', 'yes': True, 'no': False, 'two': [1, 2], 'none': [], 'e': '', 'o': {'v': 'in'}}
+            for nm, body in (('T', tb), ('U', ub)):
+                parts = {'empty': '', 'leaf': 'L\nl2\n', 'mid': body, 'outer': 'head\n{{> mid}}| tail\n'}
+                cases.append(rcase(f'nf{kn}{nm}', main, data, partials=parts, entry=0, kind='noop' + nm, grp=f'nf{kn}', E=ub, tags=['noop-fixed']))
+            kn += 1
     # state probes between siblings
     m = (100 if tier == 'quick' else 1500) * scale
     for k in range(m):
@@ -109,6 +127,16 @@ def gen_cases(rng, tier, scale):
             A += '{{#> p1}}x{{/p1}}'
         tpl = '{{state}}|' + A + '|{{state}}'
         cases.append(rcase(f's{k}', tpl, data, pre=['probes'], partials=parts, entry=0, kind='state', grp=f's{k}', tags=['state']))
+    # the same around each built-in in its body-less and empty-bodied forms, whatever the seed
+    data = {'a': {'x': 1}, 'l': [1, 2], 'none': [], 'yes': True, 'no': False, 'name': 'N'}
+    parts = {'p1': '({{name}}{{> @partial-block}})', 'p2': 'P2'}
+    FORMS = ['{{with a}}', '{{with no}}', '{{#if (with 1)}}x{{/if}}', '{{#unless (with a)}}x{{/unless}}', '{{each l}}', '{{each none}}',
+             '{{if yes}}', '{{unless no}}', '{{#with a}}{{/with}}', '{{#with no}}{{else}}{{/with}}', '{{#each l}}{{/each}}',
+             '{{#each none}}{{else}}e{{/each}}', '{{#each a}}{{/each}}', '{{lookup a "x"}}', '{{#> nop}}{{/nop}}', '{{> p2}}',
+             '{{#> p1}}{{/p1}}', '{{#> p1}}{{with a}}{{/p1}}', '{{#*inline "i"}}{{with a}}{{/inline}}{{> i}}', '{{#with a as |w|}}{{with w}}{{/with}}',
+             '{{#each l as |v k|}}{{each ../l}}{{/each}}', '{{(with a)}}', '{{#if yes}}{{else}}{{/if}}', '{{#if no}}{{else with a}}{{/if}}']
+    for k, A in enumerate(FORMS):
+        cases.append(rcase(f'sf{k}', '{{state}}|' + A + '|{{state}}', data, pre=['probes'], partials=parts, entry=0, kind='state', grp=f'sf{k}', tags=['state-fixed']))
     return cases
 
 def oracle_all(byid):
